@@ -780,6 +780,45 @@ pub fn gen_c01(thorough: bool, rng: &mut Rng, out: &mut Vec<String>) {
         }
     }
 }
+/// an eight-byte real as a FOREIGN writer may emit it: normalised (top hex digit of the mantissa non-zero)
+/// with up to 56 significant mantissa bits — more than a double holds, so the reader has to round
+fn foreign_real(rng: &mut Rng) -> [u8; 8] {
+    let sign: u64 = if rng.below(4) == 0 { 1 } else { 0 };
+    let e: u64 = 40 + rng.below(50);
+    let top: u64 = 1 + rng.below(15); // top hex digit: decides how many of the 56 bits exceed 53 (0..3)
+    let body: u64 = rng.next() & ((1u64 << 52) - 1);
+    let mut m: u64 = (top << 52) | body;
+    let shift = (64 - m.leading_zeros() as i64 - 53).max(0) as u32; // bits a double cannot hold
+    match rng.below(6) {
+        0 => {}                                                            // random tail
+        1 if shift > 0 => m = (m >> shift << shift) | (1u64 << (shift - 1)),          // exactly half: tie, kept part even or odd
+        2 if shift > 0 => m = (m >> shift << shift) | (1u64 << (shift - 1)) | 1,      // just above half (when shift > 1)
+        3 if shift > 1 => m = (m >> shift << shift) | ((1u64 << (shift - 1)) - 1),    // just below half
+        4 => m |= (1u64 << 53) - 1,                                        // all ones: rounding carries into the next binade / hex digit
+        _ => m = m >> shift << shift,                                      // representable exactly
+    }
+    if rng.below(40) == 0 { return [0x3E, 0x41, 0x89, 0x37, 0x4B, 0xC6, 0xA7, 0xEF]; } // 1e-3 as most tools write it
+    let w = (sign << 63) | (e << 56) | (m & ((1u64 << 56) - 1));
+    w.to_be_bytes()
+}
+/// the double nearest to the exact value of a normalised eight-byte real (ties to even), by integer arithmetic
+fn round_foreign(b: &[u8; 8]) -> f64 {
+    let w = u64::from_be_bytes(*b);
+    let neg = w >> 63 == 1;
+    let e = ((w >> 56) & 0x7F) as i32;
+    let m = w & ((1u64 << 56) - 1);
+    if m == 0 { return 0.0; }
+    let p = 63 - m.leading_zeros() as i32; // position of the top set bit
+    let shift = (p - 52).max(0) as u32;
+    let mut q = m >> shift;
+    if shift > 0 {
+        let rem = m & ((1u64 << shift) - 1);
+        let half = 1u64 << (shift - 1);
+        if rem > half || (rem == half && q & 1 == 1) { q += 1; }
+    }
+    let v = (q as f64) * 2f64.powi(4 * (e - 64) - 56 + shift as i32); // q <= 2^53 and the power of two are exact
+    if neg { -v } else { v }
+}
 pub fn gen_c03(thorough: bool, rng: &mut Rng, out: &mut Vec<String>) {
     let n = if thorough { 40000 } else { 4000 };
     let extras: [u8; 8] = [0x39, 0x3A, 0x3B, 0x1F, 0x20, 0x23, 0x22, 0x36];
@@ -804,7 +843,42 @@ pub fn gen_c03(thorough: bool, rng: &mut Rng, out: &mut Vec<String>) {
             _ => vec![0; 1 + rng.below(7) as usize],
         };
         let lib_extra = if i % 8 == 3 { Some(extras[rng.below(8) as usize]) } else { None };
-        let bytes = ref_encode(&lib, &Choices { trailing, lib_extra });
+        // a tenth of the streams carry reals written by a foreign tool: full 56-bit mantissas (the reader
+        // must round to the nearest double, ties to even). The expected library holds the rounded values;
+        // the stream is the reference encoding of it with each real patched, in stream order.
+        let mut pats: Vec<[u8; 8]> = vec![];
+        if i % 10 == 7 && lib_extra.is_none() {
+            let mut slot = |x: &mut f64, rng: &mut Rng| { let p = foreign_real(rng); *x = round_foreign(&p); pats.push(p); };
+            slot(&mut lib.units.0, rng);
+            slot(&mut lib.units.1, rng);
+            for st in lib.structs.iter_mut() {
+                for e in st.elems.iter_mut() {
+                    let strans = match e {
+                        GdsElement::GdsStructRef(x) => x.strans.as_mut(),
+                        GdsElement::GdsArrayRef(x) => x.strans.as_mut(),
+                        GdsElement::GdsTextElem(x) => x.strans.as_mut(),
+                        _ => None,
+                    };
+                    if let Some(t) = strans {
+                        if let Some(m) = t.mag.as_mut() { slot(m, rng); }
+                        if let Some(a) = t.angle.as_mut() { slot(a, rng); }
+                    }
+                }
+            }
+        }
+        let mut bytes = ref_encode(&lib, &Choices { trailing, lib_extra });
+        if !pats.is_empty() {
+            let mut k = 0;
+            for (off, len) in record_spans(&bytes) {
+                if bytes[off + 3] == 5 {
+                    for j in 0..(len - 4) / 8 {
+                        bytes[off + 4 + 8 * j..off + 12 + 8 * j].copy_from_slice(&pats[k]);
+                        k += 1;
+                    }
+                }
+            }
+            assert_eq!(k, pats.len(), "every real of the stream is patched exactly once");
+        }
         let expect = if lib_extra.is_some() { a("unsupported") } else { lib_s(&lib) };
         out.push(format!("gds.c03 {} {}", of_bytes(&bytes), expect));
     }
